@@ -161,6 +161,30 @@ theorem C18_cancel_flag_held_delivered_witness :
     wHeldDelivered.1.closed = [] :=
   ⟨⟨0, _, ⟨by decide, by decide⟩, runSched_reach _ _ _⟩, by decide⟩
 
+/-! ### `Shutdown` called from inside a callback is among the interleavings of the model
+
+A callback that calls `Executor.Shutdown(f, DontWaitForShutdown)` is not a transition of its own.  It is the `block`
+callback (the worker sits in `cb e 0` until its tag is released) together with a controller whose script is
+`shutdown f; release tag`, in the interleaving in which the three steps of `Shutdown` happen while that worker does
+nothing else and the worker goes on right after.  All theorems are over all interleavings of arbitrary controllers, so
+they hold for it.  (The real code is driven that way by the harness part `cbshutdown`.) -/
+
+def cbScript : List EnvOp :=
+  [.exec 1 1 .block 10, .exec 2 3 .plain 11, .waitUntil 1, .shutdown { dontWait := true }, .release 10]
+
+/-- task 0 (due 1, blocking callback) starts at 1; while its worker is inside the callback, Shutdown() goes through;
+the callback returns; the same worker then delivers task 1, which was pending at the shutdown, at its time 3. -/
+def wCbShutdown : Cfg Sh Th :=
+  runSched sys (initCfg 0 [.idle, .ticker, .ctl .ready cbScript])
+    [(2, 0), (2, 0), (0, 0), (2, 0), (2, 0), (1, 0), (0, 0), (0, 0), (0, 0), (2, 0), (2, 0), (2, 0), (2, 0), (2, 0),
+      (0, 0), (0, 0), (0, 0), (1, 0), (1, 0), (0, 0), (0, 0), (0, 0)]
+
+theorem C18_shutdown_from_callback_witness :
+    Reachable wCbShutdown ∧
+    wCbShutdown.1.log = [.run 1 3, .deliver 1 3, .shutdown false false, .run 0 1, .deliver 0 1,
+      .sched 1 (some 2) 3, .sched 0 (some 1) 1] :=
+  ⟨⟨0, _, ⟨by decide, by decide⟩, runSched_reach _ _ _⟩, by decide⟩
+
 /-! ### dropped and delivered exclude each other -/
 
 /-- **What the queue discards is marked as cancelled and is never handed out** — in every reachable configuration
